@@ -212,6 +212,10 @@ func zzWritethrough(maxRows, calls, maxFail int) {
 	if m.Failed() {
 		zz.Assert(!w.committed, "an upstream error leaves no committed file")
 	}
+	if d.Err == sliceio.EOF && len(w.failed) == 0 && !m.Failed() {
+		zz.Reach("shard read to a clean end with no failure")
+		zz.Assert(w.committed, "a shard read to a clean end of stream with no failure leaves a committed cache file - also an empty shard (otherwise later runs recompute it)")
+	}
 	if d.Err == nil {
 		zz.Reach("consumer stopped early")
 		zz.Assert(!w.committed, "a partially consumed shard leaves no committed file")
